@@ -322,3 +322,31 @@ Lemma gcm_seal_max_val : gcm_seal_max = 2 ^ 36 - 32.
 Proof. reflexivity. Qed.
 Lemma chacha_open_max_val : chacha_open_max = chacha_seal_max + 16.
 Proof. reflexivity. Qed.
+
+(* ---------- a toy instance showing that the laws of the standard AEAD are satisfiable ---------- *)
+Definition toy_seal (k n a p : bytes) : bytes := p ++ zeros 16.
+Definition toy_open (smax : N) (k n a c : bytes) : option bytes :=
+  if Nat.leb 16 (length c) && beq (skipn (length c - 16) c) (zeros 16)
+     && (N.of_nat (length c - 16) <=? smax)
+  then Some (firstn (length c - 16) c) else None.
+
+Lemma toy_laws smax :
+  seal_len_law toy_seal 16 /\ open_seal_law toy_seal (toy_open smax) smax /\
+  open_only_seal_law toy_seal (toy_open smax) smax.
+Proof.
+  unfold seal_len_law, open_seal_law, open_only_seal_law, toy_seal, toy_open. repeat split.
+  - intros. rewrite app_length, zeros_length. reflexivity.
+  - intros k n a p Hp. rewrite app_length, zeros_length.
+    replace (length p + 16 - 16)%nat with (length p) by lia.
+    rewrite skipn_app_exact, firstn_app_exact, beq_refl.
+    destruct (Nat.leb_spec 16 (length p + 16)); [|lia].
+    unfold lenN in Hp. destruct (N.leb_spec (N.of_nat (length p)) smax); [|lia]. reflexivity.
+  - destruct (Nat.leb_spec 16 (length c)) as [Hl|]; [|discriminate].
+    destruct (beq _ (zeros 16)) eqn:Eb; [|discriminate]. apply beq_eq in Eb.
+    destruct (N.leb_spec (N.of_nat (length c - 16)) smax); [|discriminate].
+    cbn [andb] in H. inversion H; subst p. rewrite <- Eb. symmetry. apply firstn_skipn.
+  - destruct (Nat.leb_spec 16 (length c)) as [Hl|]; [|discriminate].
+    destruct (beq _ (zeros 16)) eqn:Eb; [|discriminate].
+    destruct (N.leb_spec (N.of_nat (length c - 16)) smax); [|discriminate].
+    cbn [andb] in H. inversion H; subst p. unfold lenN. rewrite firstn_length. lia.
+Qed.
